@@ -68,7 +68,11 @@ func (f *Letx) Call(s *slip.Scope, args slip.List, depth int) (result slip.Objec
 			if 1 < len(tb) {
 				// Use the original scope to avoid using the new bindings since
 				// they are evaluated in apparent parallel.
-				ns.Let(sym, slip.EvalArg(ns, tb, 1, d2))
+				v := slip.EvalArg(ns, tb, 1, d2)
+				if slip.IsExit(v) {
+					return v
+				}
+				ns.Let(sym, v)
 			} else {
 				ns.Let(sym, nil)
 			}
